@@ -153,7 +153,7 @@ def run(tier, seed, replay=None):
     ck.sample_trace(tpath)
     for msg in v['infra']:
         ck.note('infrastructure: ' + msg)
-    for idx, rec in v['rejected']:
+    for idx, rec in v['rejected'][:8]:
         # confirm by re-running exactly the case
         ci = rec.get('ci', 1) - 1
         case = cases[ci]
@@ -165,6 +165,8 @@ def run(tier, seed, replay=None):
             ck.violation(key, 'recorded result %s is not the field result' % (rec.get('r') or rec), dict(cases=[list(case)], event=rec))
         else:
             ck.note('rejection at event %d not reproduced on re-run; ignored as flaky' % idx)
+    if len(v['rejected']) > 8:
+        ck.note('%d further rejected records not individually confirmed' % (len(v['rejected']) - 8))
     ck.cov['cases'] = len(cases)
     ck.cov['exhaustive'] = False
     return ck.finish()
